@@ -164,6 +164,7 @@ inductive Ev
   | emit (to : Nat) (e : SupEv)    -- `notify_supervisor` handed `e` (about this actor) to `to`'s port
   | supArrive (e : SupEv)          -- `e` was handed to this actor's supervision port
   | supIs (p : Option Nat)         -- observed supervisor after the op (only when it changed)
+  | isLocal                        -- the actor is a thread-local actor (first event of such an actor)
   | aborted                        -- `JoinHandle::abort` hit the live task
   | dropped                        -- the spawn future was dropped while alive
   | join (r : JoinRes)
@@ -193,6 +194,8 @@ structure Actor where
   phase : Phase := .fresh
   seg : Option Seg := none
   wantSup : Option Nat := none
+  /-- a `ThreadLocalActor` (`thread_local/inner.rs`): linked before `pre_start`, never reports its state -/
+  isLocal : Bool := false
   /-- signal port: sender still in the cell / `Signal::Kill` in flight -/
   sigTx : Bool := true
   sigVal : Bool := false
@@ -384,7 +387,9 @@ def afterExit (a : Actor) (r : Res) : M :=
     andThen (a, o) listen
   | .inMsg, .ok => listen a
   | .inSup, .ok => listen a
-  | .postStop rs, .ok => finish a (.terminated a.id true rs)
+  | .postStop rs, .ok =>
+    -- the state of a thread-local actor is not `Send`: it is never boxed into the event
+    finish a (.terminated a.id (!a.isLocal) rs)
   | .postStart, r => finish a (failedEv a r)
   | .postStop _, r => finish a (failedEv a r)
   | _, r => finish (a.setStatus .stopping) (failedEv a r)
@@ -396,7 +401,7 @@ def afterPre (a : Actor) (supOk : Bool) (r : Res) : M :=
   | .err n => failSpawn a (.startup false n)
   | .panic n => failSpawn a (.startup true n)
   | .ok =>
-    match a.wantSup with
+    match (if a.isLocal then none else a.wantSup) with   -- a thread-local actor was linked by `opSpawn`
     | some p =>
       if Status.draining.rank ≤ a.status.rank || !supOk then failSpawn a .nolink
       else ({ a with sup := some p, notifyOnCancel := true, phase := .ready, woken := true },
@@ -436,7 +441,9 @@ def runSeg (a : Actor) (cb : Cb) (s : Seg) (k : Actor → Res → M) : M :=
 /-! ### The ops -/
 
 inductive AOp
-  | spawn (sup : Option Nat) (name : Option String) (nameFree : Bool)   -- nameFree: the registry has no such name
+  /-- nameFree: the registry has no such name; isLocal: `ThreadLocalActor::spawn*`; supOk: the
+  requested supervisor accepts a link right now (only consulted for thread-local actors) -/
+  | spawn (sup : Option Nat) (name : Option String) (nameFree : Bool) (isLocal : Bool) (supOk : Bool)
   | pollSpawn (supOk : Bool)
   | dropSpawn
   | poll
@@ -457,10 +464,26 @@ inductive AOp
 
 /-- `spawn`/`spawn_linked`: `new()` (cell, ports, armed guard), `start()` up to the first
 suspension inside `pre_start`. -/
-def opSpawn (a : Actor) (sup : Option Nat) (name : Option String) (nameFree : Bool) : M :=
+def opSpawn (a : Actor) (sup : Option Nat) (name : Option String) (nameFree : Bool)
+    (isLocal : Bool) (supOk : Bool) : M :=
   match a.phase with
   | .fresh =>
     if name.isSome && !nameFree then (a, [.ev (.spawnRet .registered)])   -- `ActorCell::new` fails: no cell
+    else if isLocal then
+      -- thread_local/inner.rs `start`: `Starting`, then the link is made synchronously, before the
+      -- builder (which runs `pre_start`) is shipped to the spawner's thread
+      match sup with
+      | some p =>
+        if !supOk then
+          -- `start` returns `Err`, the guard is dropped: the cell that existed for an instant is gone
+          -- before the harness learns it (`pre_start` never ran)
+          (a, [.ev (.spawnRet .nolink)])
+        else ({ a with phase := .pre, status := .starting, armed := true, wantSup := sup, isLocal := true,
+                       name := name, nameHeld := name.isSome, sup := some p },
+              [.ev .isLocal, .eff (.link p), .ev (.enter .preStart .none)])
+      | none => ({ a with phase := .pre, status := .starting, armed := true, wantSup := sup, isLocal := true,
+                          name := name, nameHeld := name.isSome },
+                 [.ev .isLocal, .ev (.enter .preStart .none)])
     else ({ a with phase := .pre, status := .starting, armed := true, wantSup := sup,
                    name := name, nameHeld := name.isSome },
           [.ev (.enter .preStart .none)])
@@ -566,7 +589,7 @@ def Actor.envOp (a : Actor) : AOp → M
   | _ => (a, [])
 
 def Actor.stepCore (a : Actor) : AOp → M
-  | .spawn sup name nameFree => opSpawn a sup name nameFree
+  | .spawn sup name nameFree isLocal supOk => opSpawn a sup name nameFree isLocal supOk
   | .pollSpawn supOk => opPollSpawn a supOk
   | .dropSpawn => opDropSpawn a
   | .poll => opPoll a
@@ -663,7 +686,7 @@ end
 
 inductive Op
   | case
-  | spawn (a : Nat) (sup : Option Nat) (name : Option String)
+  | spawn (a : Nat) (sup : Option Nat) (name : Option String) (isLocal : Bool)
   | pollSpawn (a : Nat)
   | dropSpawn (a : Nat)
   | poll (a : Nat)
@@ -686,14 +709,16 @@ def World.nameFree (w : World) (n : Option String) : Bool :=
   | some n => !w.actors.any fun a => a.nameHeld && a.name == some n
 
 /-- `SupervisionTree::link` preconditions on the supervisor's side. -/
-def World.supOk (w : World) (a : Nat) : Bool :=
-  match (w.get a).wantSup with
+def World.supOkOf (w : World) (sup : Option Nat) : Bool :=
+  match sup with
   | some p => decide ((w.get p).status.rank < Status.draining.rank) && (w.get p).kids.isSome
   | none => true
 
+def World.supOk (w : World) (a : Nat) : Bool := w.supOkOf (w.get a).wantSup
+
 def Op.target (w : World) : Op → Option (Nat × AOp)
   | .case => none
-  | .spawn a sup name => some (a, .spawn sup name (w.nameFree name))
+  | .spawn a sup name loc => some (a, .spawn sup name (w.nameFree name) loc (w.supOkOf sup))
   | .pollSpawn a => some (a, .pollSpawn (w.supOk a))
   | .dropSpawn a => some (a, .dropSpawn)
   | .poll a => some (a, .poll)
@@ -889,6 +914,8 @@ structure St where
   aborted : Bool := false
   stopReason : Option Reason := none
   drainReq : Bool := false
+  /-- a thread-local actor: its state is not `Send` and is never reported -/
+  isLocal : Bool := false
   deriving DecidableEq, Repr, Inhabited
 
 /-- Is the terminal event `e` the right one for what the trace shows? -/
@@ -905,7 +932,7 @@ def classify (s : St) : SupEv → Except String Unit
       if s.aborted && !hasState then .ok () else .error "c04.cancelled-class"
     | r =>
       if !s.postStopOk then .error "c04.terminated-without-post_stop"
-      else if !hasState then .error "c04.graceful-state"
+      else if hasState == s.isLocal then .error "c04.graceful-state"   -- state iff not thread-local
       else if s.stopReason = some r || (r = .drained && s.drainReq) then .ok ()
       else .error "c04.reason"
 
@@ -935,6 +962,7 @@ def next (me : Nat) (s : St) : Ev → Except String St
   | .cancelled .preStart => .ok { s with preFailed := true }
   | .dropped => .ok { s with preFailed := true }
   | .aborted => .ok { s with aborted := true }
+  | .isLocal => .ok { s with isLocal := true }
   | .killRet _ true => .ok { s with killed := true }
   | .stopRet _ r true => .ok { s with stopReason := some r }
   | .drainRet true => .ok { s with drainReq := true }
